@@ -44,7 +44,9 @@ def run(res):
         assumptions=["PARTIAL: data-race freedom in the Go memory model, panics and gRPC internals are runtime facts; the Coq half covers the lock discipline written in gribigo (regenerated table) and the election compare-and-set; the runtime half is the stress workload under the race detector",
                      "AddNetworkInstance / SetPostChangeHook / SetResolvedEntryHook run during set-up only (they are the only writers of the instance map / hook fields)",
                      "a session's own clientState is written only by its receive goroutine",
+                     "c11rib: the RIB's own locks under 2-6 concurrent callers of the public rib.RIB API (the callers a server with several writers has; in SINGLE_PRIMARY mode the server itself lets only the primary through, so Modify sessions alone overlap inside the RIB only during a hand-over) with held operations being resolved by other callers' installs, readers walking RIBContents meanwhile; race detector, watchdog per call, worker process per case; quiescent: installed next-hops per key space = fold of the acknowledged calls",
                      "two further runs of the race-built harness: c11elect (2-6 sessions announce two ids each at the same moment on fresh servers: every response within [own id, maximum], afterwards id = maximum and the primary announced it) and c11snap (slow Get readers against a writer and a Flush caller: every Get result is, instance by instance, a closed state)",
                      "quiescent installed = acknowledged is checked for workloads without Flush, sessions using disjoint key spaces (so that acknowledgements of different streams commute)"],
-        extra_runs=[("c11elect", 30 if res.tier == "quick" else 400), ("c11snap", 2 if res.tier == "quick" else 30)],
+        extra_runs=[("c11elect", 30 if res.tier == "quick" else 400), ("c11snap", 2 if res.tier == "quick" else 30),
+                    ("c11rib", 4 if res.tier == "quick" else 60)],
         vh_bin="vh-c11", build_flags=["-race"], vh_env=env, post=post, shrink_key="none")
